@@ -139,6 +139,85 @@ fn kv<'a>(cfg: &'a str, key: &str) -> &'a str {
     ""
 }
 
+type ConcBundle = RawBundle<FluentResource, intl_memoizer::concurrent::IntlLangMemoizer>;
+
+/// C15 `pool=1`: the shared bundle lives in ONE place for the whole process (a later bundle replaces the earlier
+/// one in place, at the same address) and the worker threads are long-lived, so anything a thread or the
+/// memoizer remembers across bundles (thread-locals, address-keyed caches) is exercised.
+static SLOT: std::sync::RwLock<Option<ConcBundle>> = std::sync::RwLock::new(None);
+
+struct Job {
+    reqs: std::sync::Arc<Vec<Req>>,
+    t: usize,
+    barrier: std::sync::Arc<std::sync::Barrier>,
+    resp: std::sync::mpsc::Sender<(usize, Vec<String>)>,
+}
+
+const POOL_SIZE: usize = 8;
+
+fn pool() -> &'static Vec<std::sync::Mutex<std::sync::mpsc::Sender<Job>>> {
+    static POOL: std::sync::OnceLock<Vec<std::sync::Mutex<std::sync::mpsc::Sender<Job>>>> = std::sync::OnceLock::new();
+    POOL.get_or_init(|| {
+        (0..POOL_SIZE)
+            .map(|_| {
+                let (tx, rx) = std::sync::mpsc::channel::<Job>();
+                std::thread::Builder::new()
+                    .stack_size(8 << 20)
+                    .spawn(move || {
+                        while let Ok(job) = rx.recv() {
+                            let n = job.reqs.len();
+                            job.barrier.wait();
+                            let out = std::panic::catch_unwind(std::panic::AssertUnwindSafe(|| {
+                                let guard = SLOT.read().unwrap_or_else(|e| e.into_inner());
+                                let mut out = vec![String::new(); n];
+                                if let Some(b) = guard.as_ref() {
+                                    for k in 0..n {
+                                        let i = (k + job.t * 3) % n;
+                                        out[i] = answer(b, &job.reqs[i], None);
+                                    }
+                                }
+                                out
+                            }))
+                            .unwrap_or_else(|_| vec!["PANIC thread".to_string(); n]);
+                            let _ = job.resp.send((job.t, out));
+                        }
+                    })
+                    .unwrap();
+                std::sync::Mutex::new(tx)
+            })
+            .collect()
+    })
+}
+
+fn run_pooled(b: ConcBundle, reqs: Vec<Req>, threads: usize) -> Vec<String> {
+    let threads = threads.min(POOL_SIZE);
+    let n = reqs.len();
+    *SLOT.write().unwrap_or_else(|e| e.into_inner()) = Some(b);
+    let reqs = std::sync::Arc::new(reqs);
+    let barrier = std::sync::Arc::new(std::sync::Barrier::new(threads));
+    let (tx, rx) = std::sync::mpsc::channel();
+    for t in 0..threads {
+        let job = Job { reqs: reqs.clone(), t, barrier: barrier.clone(), resp: tx.clone() };
+        let _ = pool()[t].lock().unwrap_or_else(|e| e.into_inner()).send(job);
+    }
+    drop(tx);
+    let mut results: Vec<Vec<String>> = vec![vec!["MISSING thread".to_string(); n]; threads];
+    for _ in 0..threads {
+        if let Ok((t, out)) = rx.recv() {
+            results[t] = out;
+        }
+    }
+    let mut outs = results[0].clone();
+    for (t, r) in results.iter().enumerate().skip(1) {
+        for i in 0..n {
+            if r[i] != results[0][i] {
+                outs[i] = format!("{} THREADS-DISAGREE(thread {}: {})", outs[i], t, r[i]);
+            }
+        }
+    }
+    outs
+}
+
 struct Req {
     id: String,
     attr: Option<String>,
@@ -301,7 +380,9 @@ fn run_one(payload: &str) -> String {
         if configure(&mut b, cfg, ress, fns).is_none() {
             return "bad-case".into();
         }
-        if threads > 1 {
+        if threads > 1 && kv(cfg, "pool") == "1" {
+            run_pooled(b, reqs, threads)
+        } else if threads > 1 {
             // C15: the bundle is shared by reference; every thread issues every request (in a rotated
             // order) starting from a cold formatter cache, released together by a barrier
             let barrier = std::sync::Barrier::new(threads);
